@@ -363,6 +363,7 @@ def explore_scenario_run(ix, symbols=None, cls="behave.model:Scenario", mutate=N
         st.wobj(scen).fields["continue_after_failed_step"] = True
     st.ghost["current_element"] = scen.oid
     st.ghost["hooks_may_raise_base"] = False
+    st.ghost["hooks_may_skip"] = True
     if not thorough:
         st.ghost["no_user_abort"] = True
     st.pinned = st.pinned + (scen.oid,)
@@ -413,7 +414,11 @@ def child_run_stub(world, container_ref_getter, symbols):
     undefined steps."""
     def stub(it, st, args, kw, node):
         outs = []
-        for sym in symbols:
+        syms = symbols
+        if st.ghost.get("hook_skipped_element"):
+            # element.skip() marks every child skipped as well: a skipped child runs nothing and reports 'not failed'
+            syms = ["ok"]
+        for sym in syms:
             s = st.fork()
             parts = sym.split("+")
             failed = parts[0] == "failed"
@@ -614,6 +619,7 @@ def explore_container_run(ix, cls, thorough=False, mutate=None):
     holder["self"] = me
     st.ghost["current_element"] = me.oid
     st.ghost["no_user_abort"] = not thorough
+    st.ghost["hooks_may_skip"] = True
     st.pinned = st.pinned + (me.oid,)
     st.freeze_base()
     outs = it.run(func, st, [runner], {}, self_val=me)
@@ -632,7 +638,7 @@ def explore_container_run(ix, cls, thorough=False, mutate=None):
             "scope": g.get("scope"), "scope_err": g.get("scope.err"),
             "n_run": g.get("n_run", 0), "cached": so.fields.get("_cached_status"), "cached_last": g.get("cached_last"),
             "hook_failed": so.fields.get("hook_failed"),
-            "should_skip": so.fields.get("should_skip"), "skipped_midrun": g.get("skipped_midrun", False),
+            "should_skip": so.fields.get("should_skip"), "skipped_midrun": g.get("skipped_midrun", False) or g.get("hook_skipped_element", False),
             "should_skip_entry": g.get("should_skip_entry"),
             "dry_run": b(cfgo.fields.get("dry_run")), "show_skipped": b(cfgo.fields.get("show_skipped")),
             "stop": b(cfgo.fields.get("stop")),
